@@ -44,7 +44,7 @@ def name2unicode(name: str) -> str:
     elif name.startswith("uni"):
         name_without_uni = name.strip("uni")
 
-        if HEXADECIMAL.match(name_without_uni) and len(name_without_uni) % 4 == 0:
+        if HEXADECIMAL.fullmatch(name_without_uni) and len(name_without_uni) % 4 == 0:
             unicode_digits = [
                 int(name_without_uni[i : i + 4], base=16)
                 for i in range(0, len(name_without_uni), 4)
@@ -57,7 +57,7 @@ def name2unicode(name: str) -> str:
     elif name.startswith("u"):
         name_without_u = name.strip("u")
 
-        if HEXADECIMAL.match(name_without_u) and 4 <= len(name_without_u) <= 6:
+        if HEXADECIMAL.fullmatch(name_without_u) and 4 <= len(name_without_u) <= 6:
             unicode_digit = int(name_without_u, base=16)
             raise_key_error_for_invalid_unicode(unicode_digit)
             return chr(unicode_digit)
@@ -70,7 +70,7 @@ def name2unicode(name: str) -> str:
 
 def raise_key_error_for_invalid_unicode(unicode_digit: int) -> None:
     """Unicode values should not be in the range D800 through DFFF because
-    that is used for surrogate pairs in UTF-16
+    that is used for surrogate pairs in UTF-16, and not above 10FFFF
 
     :raises KeyError if unicode digit is invalid
     """
@@ -78,6 +78,10 @@ def raise_key_error_for_invalid_unicode(unicode_digit: int) -> None:
         raise PDFKeyError(
             "Unicode digit %d is invalid because "
             "it is in the range D800 through DFFF" % unicode_digit,
+        )
+    if unicode_digit > 0x10FFFF:
+        raise PDFKeyError(
+            "Unicode digit %d is invalid because it is above 10FFFF" % unicode_digit,
         )
 
 
